@@ -55,6 +55,28 @@ FRESH_CALLS = {"array", "copy", "deepcopy", "astype", "zeros", "ones", "full", "
 VIEW_CALLS = {"asarray", "asanyarray", "reshape", "ravel", "squeeze", "transpose", "swapaxes", "atleast_1d", "atleast_2d", "expand_dims", "view", "DataArray", "Variable", "broadcast_to"}
 
 
+def _all_callers_pass_fresh(P, f, param):
+    """every call of f in the package passes, for `param`, a deep copy made at the call site (X.copy(deep=True) / copy.deepcopy(X)); False when there is no call site"""
+    from ..loader import FuncInfo
+    ps = f.params()
+    if param not in ps:
+        return False
+    i = ps.index(param)
+    sites = 0
+    for g in P.all_functions():
+        for n in ast.walk(g.node):
+            if isinstance(n, ast.Call):
+                t = P.resolve_expr(g.module, n.func, g)
+                if isinstance(t, FuncInfo) and t.node is f.node:
+                    sites += 1
+                    a = n.args[i] if i < len(n.args) else next((k.value for k in n.keywords if k.arg == param), None)
+                    deep = isinstance(a, ast.Call) and ((isinstance(a.func, ast.Attribute) and a.func.attr == "copy" and any(k.arg == "deep" and isinstance(k.value, ast.Constant) and k.value.value is True for k in a.keywords))
+                                                        or (dotted(a.func) or [""])[-1] == "deepcopy")
+                    if not deep:
+                        return False
+    return sites > 0
+
+
 def _export_buffers(run, P):
     """Grid.to_xarray / encode_as hand the caller a dataset he may edit in place: every array put into it must be FRESH (the result of arithmetic, np.array, .copy(),
     astype, fancy indexing ...), never a view of an array that lives in Grid._ds.  The encoders receive the grid's dataset or its variables as parameters; a value is
@@ -150,7 +172,9 @@ def _export_buffers(run, P):
             st_ = state(r.value)
             c = f"{f.key}:returned-dataset"
             n_out += 1
-            if st_.startswith("shared"):
+            if st_.startswith("shared") and _all_callers_pass_fresh(P, f, st_[7:]):
+                run.holds(R, c, where(f, r), f"the encoder works on the dataset it is given; every call site hands it a deep copy ({st_[7:]})")
+            elif st_.startswith("shared"):
                 run.violation(R, c, where(f, r), f"the exported dataset is (a shallow copy of) the {st_[7:]} it was given: its variables share their buffers with Grid._ds, so an in-place edit of the export "
                               "(out['node_lon'].values[0] = ...) changes what the grid reports; Dataset.copy(deep=True) is needed")
             elif st_ == "unknown":
